@@ -22,7 +22,7 @@ def gen(rng, count, sizes):
     """groups: (multi-bunch case, [single-bunch cases]) for kick / rf / drift / fp"""
     groups = []
     for k in range(count):
-        kind = ["kick", "kick", "rf", "drift", "fp", "ident"][k % 6]
+        kind = ["kick", "kick", "rf", "drift", "fp", "ident", "dynrf"][k % 7]
         n = rng.choice(sizes)
         nb = rng.choice([2, 3, 5]) if n <= 17 else rng.choice([2, 3])
         it = rng.choice([1, 2, 3, 4])
@@ -56,6 +56,18 @@ def gen(rng, count, sizes):
             for b in range(nb):
                 singles.append(hd % ("%s_%d" % (gid, b), n, it, 1, "lin" if lin else "sin", ex(e)) +
                                "data %s\nrun\n" % ex(data[b * n * n:(b + 1) * n * n]))
+        elif kind == "dynrf":
+            # the dynamic RF map (deterministic phase modulation, no noise): one kick, every bunch against itself alone
+            steps = rng.choice([50, 300, 1000])
+            angle = f32(2 * math.pi / steps)
+            lin = rng.random() < 0.5
+            e = box + [angle, f32(4.5e8), f32(9e6 / (8e3 * steps)), f32(1e6), f32(4.5e4), 0.0, 0.0,
+                       f32(rng.uniform(0.01, 0.05)), f32(rng.uniform(0.01, 0.1))]
+            hd = "dynrf %s %d %d %d %s 4\nextra %s\n"
+            multi = hd % (gid, n, it, nb, "lin" if lin else "sin", ex(e)) + "data %s\nops a\nrun\n" % ex(data)
+            for b in range(nb):
+                singles.append(hd % ("%s_%d" % (gid, b), n, it, 1, "lin" if lin else "sin", ex(e)) +
+                               "data %s\nops a\nrun\n" % ex(data[b * n * n:(b + 1) * n * n]))
         elif kind == "ident":
             # the identity map stands in for the wake kick without impedance and for the Fokker-Planck step without damping
             hd = "ident %s %d %d\n"
@@ -119,6 +131,8 @@ def explore(chk, harness, count, sizes, tag):
         for b, s in enumerate(g["singles"]):
             optexts["%s_%d" % (g["id"], b)] = s
     A, B, mism, drift, san = corr.run_correspondence(chk, harness, optexts, tag)
+    # the sinusoidal dynamic RF map has no class-level model (the driver says so): those cases are judged by the oracle only
+    mism = [(c, d) for c, d in mism if not any(l.startswith("skip") for l in B.get(c, []))]
     fails = []
     for g in groups:
         f = oracle(g, A)
